@@ -90,5 +90,95 @@ fn main() {
             }
         }
     }
+    // ---- large states: 1..40 members with 0..300 keys each, key / value lengths 0..65 000,
+    // compressible and 7-bit random contents; random peer digests; budgets 100..65 507 with emphasis
+    // on block (16 384) and small-budget boundaries. Every delta is recorded with what the sender
+    // holds so that ObserveBudget can check size and tail-only truncation per member.
+    {
+        use rand::prelude::*;
+        let seed: u64 = std::env::args().nth(2).and_then(|s| s.parse().ok()).unwrap_or(1);
+        let mut rng = StdRng::seed_from_u64(seed);
+        let worlds = if quick { 3 } else { 12 };
+        let queries = if quick { 120 } else { 400 };
+        for wi in 0..worlds {
+            let m = *[1usize, 5, 40].choose(&mut rng).unwrap();
+            let mut w = World::new(WorldCfg { nodes: vec!["n1".into()], grace: 100000, ..Default::default() });
+            let ids: Vec<WId> = (0..m).map(|i| WId { node_id: format!("m{i}"), generation: 0, addr: format!("10.1.{}.{}:7000", i / 200, i % 200 + 1).parse().unwrap() }).collect();
+            let _ = w.deliver("n1", &codec::encode(&WMsg::Syn { cluster: "c".into(), digest: ids.iter().map(|id| WNodeDigest { id: id.clone(), hb: 1, gc: 0, max: 0 }).collect() }, &like));
+            let mut versions: Vec<Vec<u64>> = vec![Vec::new(); m];
+            for (mi, id) in ids.iter().enumerate() {
+                let nkeys = match rng.random_range(0..6) { 0 => 0, 1 => rng.random_range(1..4), 2 => 300, _ => rng.random_range(1..if m > 5 { 40 } else { 300 }) };
+                let mut ver = 0u64;
+                let mut batch: Vec<WOp> = Vec::new();
+                let mut batch_bytes = 0usize;
+                let mut from = 0u64;
+                for ki in 0..nkeys {
+                    ver += rng.random_range(1..3);
+                    let klen = *[0usize, 1, 8, 8, 8, 40, 300].choose(&mut rng).unwrap();
+                    let vlen = match rng.random_range(0..40) { 0 => 65000, 1 => 20000, 2 | 3 => 5000, 4..=8 => 300, 9 => 0, _ => rng.random_range(1..40) };
+                    let st: u8 = match rng.random_range(0..8) { 0 => 1, 1 => 2, _ => 0 };
+                    let key = format!("{ki:0>width$}", width = klen.max(if klen == 0 { 0 } else { 1 }));
+                    let key = if klen == 0 && ki > 0 { format!("{ki}") } else { key };
+                    let val = if st == 1 { String::new() } else if rng.random_bool(0.5) { "z".repeat(vlen) } else { big_value(&format!("{mi}-{ki}"), vlen) };
+                    let op = WOp::KV { key, val, ver, st };
+                    let ol = codec::op_len(&op);
+                    if batch_bytes + ol > 60000 && !batch.is_empty() {
+                        let mut ops = vec![WOp::Node { id: id.clone(), gc: 0, from }];
+                        ops.append(&mut batch);
+                        let _ = w.deliver("n1", &codec::encode(&WMsg::Ack { ops }, &like));
+                        from = versions[mi].last().copied().unwrap_or(0);
+                        batch_bytes = 0;
+                    }
+                    if ol > 65000 { continue; }
+                    batch_bytes += ol;
+                    batch.push(op);
+                    versions[mi].push(ver);
+                }
+                if !batch.is_empty() {
+                    let mut ops = vec![WOp::Node { id: id.clone(), gc: 0, from }];
+                    ops.append(&mut batch);
+                    let _ = w.deliver("n1", &codec::encode(&WMsg::Ack { ops }, &like));
+                }
+            }
+            // what the node really holds (through the public API)
+            let view = w.project("n1");
+            let held: Vec<Vec<u64>> = ids.iter().map(|id| { let mut v: Vec<u64> = view["ns"][&vharness::world::name_of_wid(id)]["kv"].as_object().map(|o| o.values().map(|e| e["ver"].as_u64().unwrap()).collect()).unwrap_or_default(); v.sort(); v }).collect();
+            for q in 0..queries {
+                let mut digest = Vec::new();
+                for (mi, id) in ids.iter().enumerate() {
+                    if rng.random_range(0..4) == 0 { continue; }
+                    let top = held[mi].last().copied().unwrap_or(0);
+                    let dmax = match rng.random_range(0..4) { 0 => 0, 1 => top, _ => rng.random_range(0..=top) };
+                    digest.push(WNodeDigest { id: id.clone(), hb: 1, gc: 0, max: dmax });
+                }
+                let mtu: usize = match rng.random_range(0..6) {
+                    0 => rng.random_range(100..400),
+                    1 => 16384 * rng.random_range(1..4) + rng.random_range(0..12) - 6,
+                    2 => 65507 - rng.random_range(0..8),
+                    3 => rng.random_range(100..3000),
+                    _ => rng.random_range(100..65508),
+                };
+                let db = codec::encode_digest(&digest);
+                let r = std::panic::catch_unwind(std::panic::AssertUnwindSafe(|| { let _g = w.rt.enter(); w.nodes.get("n1").unwrap().cc.verif_compute_delta(&db, mtu) }));
+                let (bytes, panic) = match r { Ok(Ok(b)) => (b, None), Ok(Err(e)) => (vec![], Some(e.to_string())), Err(e) => (vec![], Some(vharness::world::panic_text(e))) };
+                let (ops, _bl, _c) = codec::decode_delta(&bytes).unwrap_or((vec![], vec![], 0));
+                let mut members: Vec<serde_json::Value> = Vec::new();
+                for op in &ops {
+                    match op {
+                        WOp::Node { id, from, .. } => {
+                            let mi = ids.iter().position(|x| x == id).unwrap_or(0);
+                            let dmax = digest.iter().find(|d| &d.id == id).map(|d| d.max).unwrap_or(0);
+                            members.push(json!({"x": id.node_id, "from": from, "dmax": dmax, "carried": [], "sender": held[mi], "setmax": -1}));
+                        }
+                        WOp::KV { ver, .. } => { if let Some(m) = members.last_mut() { m["carried"].as_array_mut().unwrap().push(json!(ver)); } }
+                        WOp::SetMax { max } => { if let Some(m) = members.last_mut() { m["setmax"] = json!(max); } }
+                    }
+                }
+                n += 1;
+                writeln!(out, "{}", json!({"kind": "Sweep", "world": wi, "q": q, "nmembers": m, "mtu": mtu, "len": bytes.len(), "members": members, "panic": panic.is_some(),
+                    "d": 0, "total": 4 + bytes.len(), "delta": bytes.len(), "carried": [], "sender": []})).unwrap();
+            }
+        }
+    }
     eprintln!("budget sweep: {n} replies, longest {maxlen}");
 }
